@@ -219,15 +219,15 @@ func (fr *lexFrame) depth() int {
 }
 
 type lexFolder struct {
-	c         *Ctx
-	tables    map[*ssa.Global]fval
-	next      *ssa.Function
-	back      *ssa.Function
-	peek      *ssa.Function
-	tape      []int64
-	out       map[string]lexOutcome
-	steps     int
-	memo      map[string]bool
+	c      *Ctx
+	tables map[*ssa.Global]fval
+	next   *ssa.Function
+	back   *ssa.Function
+	peek   *ssa.Function
+	tape   []int64
+	out    map[string]lexOutcome
+	steps  int
+	memo   map[string]bool
 }
 
 func (c *Ctx) newLexFolder() *lexFolder {
